@@ -3,7 +3,7 @@
    given; otherwise the call is from_packets(packets, old_pages[0].sequence). *)
 From Coq Require Import ZArith List Bool Lia.
 Import ListNotations.
-Require Import Base.Py Base.ZList Model.Crc Model.Ogg Proofs.C15_lacing Proofs.C15_unpage.
+Require Import Base.Py Base.ZList Model.Crc Model.Ogg Proofs.C15_lacing Proofs.C15_unpage Proofs.C15_paging Proofs.C15_from_packets.
 Open Scope Z_scope.
 
 Definition lens (l : list (list Z)) : list Z := map (@zlen Z) l.
@@ -125,4 +125,134 @@ Proof.
     + rewrite Hc1, (concat_unpage_step acc o Hne). cbn [map concat]. rewrite concat_app, !app_assoc. reflexivity.
     + exists out'. cbn [tp_loop]. rewrite Hstep. repeat split; auto.
       rewrite Hc2, (concat_unpage_step acc' n Hne'). cbn [map concat]. rewrite concat_app, !app_assoc. reflexivity.
+Qed.
+
+Lemma tp_loop_concat olds : forall serial sq acc st,
+  tp_loop serial (sq, acc) olds = Ok st ->
+  concat (snd st) = concat acc ++ concat (concat (map p_packets olds)).
+Proof.
+  induction olds as [|o olds IH]; intros serial sq acc st H.
+  - cbn in H. injection H as <-. cbn. rewrite app_nil_r. reflexivity.
+  - cbn [tp_loop] in H. destruct (tp_step serial (sq, acc) o) as [st1|e] eqn:E; [|discriminate].
+    apply tp_step_inv in E. destruct E as (-> & _ & _ & Hne).
+    rewrite (IH _ _ _ _ H), (concat_unpage_step acc o Hne). cbn [map concat]. rewrite concat_app, !app_assoc. reflexivity.
+Qed.
+
+(* ---- the copy loop ------------------------------------------------------------------------------ *)
+Lemma take_like_spec olds : forall data, zlen (concat olds) <= zlen data ->
+  lens (fst (take_like olds data)) = lens olds /\
+  concat (fst (take_like olds data)) ++ snd (take_like olds data) = data.
+Proof.
+  induction olds as [|o olds IH]; intros data H.
+  - cbn. split; reflexivity.
+  - cbn [concat] in H. rewrite zlen_app in H. pose proof (zlen_nonneg o). pose proof (zlen_nonneg (concat olds)).
+    cbn [take_like]. destruct (take_like olds (zdrop (zlen o) data)) as [ps rest] eqn:E.
+    assert (Hd : zlen (concat olds) <= zlen (zdrop (zlen o) data)) by (rewrite zlen_zdrop by lia; lia).
+    destruct (IH _ Hd) as (Hl & Hc). rewrite E in Hl, Hc. cbn [fst snd] in *. split.
+    + cbn [lens map]. f_equal; [rewrite zlen_ztake by lia; lia|exact Hl].
+    + cbn [concat]. rewrite <- app_assoc, Hc. apply ztake_zdrop.
+Qed.
+
+(* the page built by the loop body from `old` *)
+Definition same_layout (n o : page) : Prop :=
+  p_serial n = 0 /\ p_sequence n = p_sequence o /\ continued n = continued o /\ p_complete n = p_complete o /\
+  p_position n = p_position o /\ first n = false /\ last_flag n = false /\ lens (p_packets n) = lens (p_packets o).
+
+Definition page_total (l : list page) : Z := zlen (concat (concat (map p_packets l))).
+
+Lemma preserve_loop_spec olds : forall data, page_total olds <= zlen data ->
+  Forall2 same_layout (fst (preserve_loop olds data)) olds /\
+  concat (concat (map p_packets (fst (preserve_loop olds data)))) ++ snd (preserve_loop olds data) = data.
+Proof.
+  induction olds as [|o olds IH]; intros data H.
+  - cbn. split; [constructor|reflexivity].
+  - unfold page_total in H. cbn [map concat] in H. rewrite concat_app, zlen_app in H.
+    pose proof (zlen_nonneg (concat (p_packets o))). pose proof (zlen_nonneg (concat (concat (map p_packets olds)))).
+    cbn [preserve_loop]. destruct (take_like (p_packets o) data) as [pk data'] eqn:E.
+    destruct (take_like_spec (p_packets o) data ltac:(lia)) as (Hl & Hc). rewrite E in Hl, Hc. cbn [fst snd] in Hl, Hc.
+    destruct (preserve_loop olds data') as [ps rest] eqn:E2.
+    assert (Hd : page_total olds <= zlen data').
+    { unfold page_total. rewrite <- Hc, zlen_app in H. rewrite (lens_concat_len pk (p_packets o) Hl) in H. lia. }
+    destruct (IH _ Hd) as (HF & Hc2). rewrite E2 in HF, Hc2. cbn [fst snd] in *. split.
+    + constructor; [|exact HF]. unfold same_layout. fields.
+      repeat split; try reflexivity; try exact Hl; unfold continued, first, last_flag, test_flag, set_continued, set_flag, new_page; fields;
+        destruct (Z.testbit (p_flags o) 0); reflexivity.
+    + cbn [map concat]. fields. rewrite concat_app, <- app_assoc, Hc2. exact Hc.
+Qed.
+
+Lemma same_layout_total news olds : Forall2 same_layout news olds -> page_total news = page_total olds.
+Proof.
+  unfold page_total. induction 1 as [|n o news olds Hno HF IH]; [reflexivity|].
+  cbn [map concat]. rewrite !concat_app, !zlen_app, IH. f_equal. apply lens_concat_len. apply Hno.
+Qed.
+
+Lemma same_layout_shape news olds : Forall2 same_layout news olds ->
+  Forall2 same_shape news olds /\ Forall (fun p => p_serial p = 0) news.
+Proof.
+  induction 1 as [|n o news olds Hno HF (IH1 & IH2)]; [split; constructor|].
+  destruct Hno as (H0 & Hs & Hc & _ & _ & _ & _ & Hl). split; constructor; auto. repeat split; assumption.
+Qed.
+
+(* ---- _from_packets_try_preserve ----------------------------------------------------------------- *)
+Theorem try_preserve_same packets olds oldp :
+  to_packets false olds = Ok oldp -> lens packets = lens oldp ->
+  exists news, from_packets_try_preserve packets olds = Ok news /\ Forall2 same_layout news olds /\
+               to_packets false news = Ok packets.
+Proof.
+  intros Hold Hlen. unfold from_packets_try_preserve. rewrite Hold.
+  assert (Heq : list_eqb (map (@zlen Z) packets) (map (@zlen Z) oldp) = true) by (apply list_eqb_spec; exact Hlen).
+  rewrite Heq. cbn [negb].
+  destruct olds as [|p0 r]; [discriminate|].
+  unfold to_packets in Hold.
+  set (acc0 := if continued p0 then [[]] else []) in *.
+  destruct (tp_loop (p_serial p0) (p_sequence p0, acc0) (p0 :: r)) as [st|e] eqn:Eloop; [|discriminate].
+  cbn [rmap] in Hold. injection Hold as Hst.
+  assert (Hacc0 : concat acc0 = []) by (unfold acc0; destruct (continued p0); reflexivity).
+  pose proof (tp_loop_concat _ _ _ _ _ Eloop) as Hcat. rewrite Hacc0, Hst in Hcat. cbn [app] in Hcat.
+  assert (Htot : page_total (p0 :: r) = zlen (concat packets)).
+  { unfold page_total. rewrite <- Hcat. symmetry. apply lens_concat_len. exact Hlen. }
+  destruct (preserve_loop_spec (p0 :: r) (concat packets) ltac:(lia)) as (HF & Hc).
+  destruct (preserve_loop (p0 :: r) (concat packets)) as [ps rest] eqn:Ep. cbn [fst snd] in HF, Hc.
+  assert (Hrest : rest = []).
+  { pose proof (same_layout_total _ _ HF) as Ht. unfold page_total in Ht, Htot.
+    assert (Hz : zlen rest = 0) by (rewrite <- Hc, zlen_app in Htot; lia).
+    destruct rest; [reflexivity|]. rewrite zlen_cons in Hz. pose proof (zlen_nonneg rest). lia. }
+  subst rest. rewrite app_nil_r in Hc. exists ps. split; [reflexivity|]. split; [exact HF|].
+  destruct (same_layout_shape _ _ HF) as (HS & H0).
+  inversion HF as [|n0 p0' ps' r' Hn0 HF']; subst.
+  destruct Hn0 as (Hser & Hseq & Hcont & _).
+  destruct (tp_loop_shape (p0 :: r) (n0 :: ps') (p_serial p0) (p_sequence p0) acc0 acc0 st HS H0 eq_refl Eloop)
+    as (_ & out' & Hl' & Hlens & Hcat').
+  unfold to_packets. rewrite Hcont, Hser, Hseq. fold acc0. rewrite Hl'. cbn [rmap snd]. f_equal.
+  apply lens_concat_inj.
+  - rewrite Hlens. symmetry. exact Hlen.
+  - rewrite Hcat', Hacc0, Hc. reflexivity.
+Qed.
+
+Theorem try_preserve_fallback packets olds oldp :
+  to_packets false olds = Ok oldp -> lens packets <> lens oldp ->
+  exists o r, olds = o :: r /\ from_packets_try_preserve packets olds = from_packets 4096 2048 packets (p_sequence o).
+Proof.
+  intros Hold Hlen. unfold from_packets_try_preserve. rewrite Hold.
+  destruct (list_eqb (map (@zlen Z) packets) (map (@zlen Z) oldp)) eqn:E.
+  - apply list_eqb_spec in E. contradiction.
+  - cbn [negb]. destruct olds as [|o r]; [discriminate|]. exists o, r. split; reflexivity.
+Qed.
+
+Lemma to_packets_strict_lax pages ps : to_packets true pages = Ok ps -> to_packets false pages = Ok ps.
+Proof.
+  destruct pages as [|p0 r]; [discriminate|]. unfold to_packets.
+  destruct (continued p0); [discriminate|]. destruct (negb (p_complete (last (p0 :: r) p0))); [discriminate|]. exact (fun H => H).
+Qed.
+
+(* whatever the relation between the new packets and the old run: the pages returned reassemble to the packets given *)
+Theorem try_preserve_roundtrip packets olds oldp :
+  to_packets false olds = Ok oldp -> packets <> [] ->
+  exists news, from_packets_try_preserve packets olds = Ok news /\ to_packets false news = Ok packets.
+Proof.
+  intros Hold Hne. destruct (list_eq_dec Z.eq_dec (lens packets) (lens oldp)) as [E|E].
+  - destruct (try_preserve_same packets olds oldp Hold E) as (news & H1 & _ & H2). exists news. split; assumption.
+  - destruct (try_preserve_fallback packets olds oldp Hold E) as (o & r & _ & H1).
+    destruct (from_packets_spec packets (p_sequence o) 4096 2048 ltac:(lia) Hne) as (pages & Hp & Ht & _).
+    exists pages. rewrite H1. split; [exact Hp|apply to_packets_strict_lax; exact Ht].
 Qed.
